@@ -6,6 +6,7 @@
  * userdata tags of surviving objects.  Partitioned by (root, configuration).
  */
 #include "hwmc.h"
+#include <inttypes.h>
 #include "univ.h"
 #include "canon.h"
 #include "wf.h"
@@ -73,10 +74,31 @@ static void explore(int root, int cfg, int maxdepth, const struct opscope *sc, s
       t = NULL;
       if (MC_TRY(30000)) { t = hist_build(&h); mc_try_end(); }
       if (mc_report_faults("replay") || !t) continue;
+      /* who is there before the call (gp_index, type, Group kind) */
+      struct who { hwloc_uint64_t gp; int type; unsigned gkind; int dont_merge; } *W = NULL; unsigned nW = 0;
+      { hwloc_obj_t *ob; nW = canon_walk(t, &ob); W = malloc((nW + 1) * sizeof(*W)); for (unsigned q = 0; q < nW; q++) { W[q].gp = ob[q]->gp_index; W[q].type = (int)ob[q]->type; W[q].gkind = ob[q]->type == HWLOC_OBJ_GROUP ? ob[q]->attr->group.kind : 0; W[q].dont_merge = ob[q]->type == HWLOC_OBJ_GROUP ? ob[q]->attr->group.dont_merge : 0; } free(ob); }
       if (MC_TRY(30000)) { op_apply(t, &ops[oi], &r); mc_try_end(); }
       MC.transitions++;
-      if (mc_report_faults(where)) { mc_leak_disable(); continue; /* half-modified topology abandoned */ }
-      if (!r.applicable) { hwloc_topology_destroy(t); continue; }
+      if (mc_report_faults(where)) { free(W); mc_leak_disable(); continue; /* half-modified topology abandoned */ }
+      if (!r.applicable) { free(W); hwloc_topology_destroy(t); continue; }
+      /* only restrict removes objects.  The one documented exception: inserting a Group equal to an existing Group of
+       * lower priority (larger kind value), or a dont_merge Group equal to a mergeable one, lets the new one take its
+       * place; otherwise the existing object is returned untouched (its gp_index and userdata survive) */
+      if (ops[oi].kind != OP_RESTRICT) {
+        hwloc_obj_t *ob; unsigned nA = canon_walk(t, &ob);
+        for (unsigned q = 0; q < nW; q++) {
+          int found = 0; for (unsigned z = 0; z < nA; z++) if (ob[z]->gp_index == W[q].gp) { found = 1; break; }
+          if (found) continue;
+          if (ops[oi].kind == OP_GROUP && W[q].type == HWLOC_OBJ_GROUP && W[q].gkind > (unsigned)ops[oi].a) continue;
+          /* ... and a Group that refuses merging takes the place of an equal mergeable one (by design of the merge rules) */
+          if (ops[oi].kind == OP_GROUP && W[q].type == HWLOC_OBJ_GROUP && ops[oi].b && !W[q].dont_merge) continue;
+          char key[128]; snprintf(key, sizeof(key), "c02.object-vanished@%s", where);
+          mc_violation(key, "%s :: %s gp=%" PRIu64 "%s is gone after the call (rc=%d)", mc_case_text(), hwloc_obj_type_string((hwloc_obj_type_t)W[q].type), W[q].gp, W[q].type == HWLOC_OBJ_GROUP ? " (a Group of equal or higher priority than the inserted one)" : "", r.rc);
+          break;
+        }
+        free(ob);
+      }
+      free(W);
       mc_outcome("op_outcomes", "%s rc=%d errno=%d", kn, r.rc, r.rc < 0 ? r.err : 0);
       int bad = state_oracles(t, where);
       char *after = NULL;
